@@ -215,11 +215,21 @@ def run(ctx):
             continue
         joker = TheJoker(prior)
         for nsrc in (1, 2, 3, 4):
-            for form in ("bare", "list", "dict"):
+            for form in ("bare", "list", "dict", "dict-names", "dict-int", "tuple"):
                 if form == "bare" and nsrc != 1:
                     continue
                 srcs = [mk(4, t0=55000 + 100 * k) for k in range(nsrc)]
-                data = srcs[0] if form == "bare" else srcs if form == "list" else {("s%d" % k): d for k, d in enumerate(srcs)}
+                if form == "dict-names":
+                    # survey names of unequal length, later ones extending the first (distinct keys are distinct sources)
+                    names = [["apo", "lamost", "apo_dr17", "apo2"], ["s1", "s2", "s10", "s11"],
+                             ["a", "ab", "abc", "b"]][int(rng.integers(0, 3))]
+                    data = {names[k]: d for k, d in enumerate(srcs)}
+                elif form == "dict-int":
+                    data = {int(7 + 3 * k): d for k, d in enumerate(srcs)}
+                elif form == "tuple":
+                    data = tuple(srcs)
+                else:
+                    data = srcs[0] if form == "bare" else srcs if form == "list" else {("s%d" % k): d for k, d in enumerate(srcs)}
                 valid = (nsrc == noff + 1)
                 ctx.evaluations += 1
                 ctx.distinct.add(repr(("sources", form, nsrc, noff, poly)))
